@@ -279,6 +279,13 @@ func (s *Server) manifestPut(repoStr, arg string) http.HandlerFunc {
 		// if mt == "", detect media type
 		if mt == "" {
 			mt = types.MediaTypeDetect(mRaw)
+		} else if det := types.MediaTypeDetect(mRaw); det != "" &&
+			(types.MediaTypeImage(det) != types.MediaTypeImage(mt) || types.MediaTypeIndex(det) != types.MediaTypeIndex(mt)) {
+			// an image pushed as an index (or the reverse) would be stored and served under the wrong type
+			w.WriteHeader(http.StatusBadRequest)
+			_ = types.ErrRespJSON(w, types.ErrInfoManifestInvalid("content type "+mt+" does not match manifest content "+det))
+			s.log.Debug("content type does not match manifest", "repo", repoStr, "arg", arg, "mediaType", mt, "detected", det)
+			return
 		}
 		// parse and validate image or index contents
 		var subject digest.Digest
